@@ -3,7 +3,7 @@ evaluation of the printer (machine.py), and what the reader's lexer (lexrun.py) 
 with atoms.  Independent of how the printer is split into functions or which formatting API it uses."""
 from . import absint, machine, mir, lexrun
 from .absint import Enum, UNKNOWN
-from .machine import Machine, Sink, Text, Hole
+from .machine import Machine, Sink, Text, Hole, NOT
 
 
 class Tok:
@@ -96,3 +96,85 @@ def rows(fb):
         ("(#(a) . b)", m.lst([m.vec([a])], b), [("LeftParen", None), ("VecConsIntro", None), ID(0), ("RightParen", None), ("Period", None), ID(1),
                                                 ("RightParen", None)]),
     ]
+
+
+# ------------------------------------------------------------------------------------------------ reals: which values print how
+
+
+REAL_CONSTS = {"max_value": 3.4028235e38, "min_value": -3.4028235e38, "infinity": float("inf"), "neg_infinity": float("-inf"),
+               "nan": float("nan"), "zero": 0.0, "one": 1.0, "min_positive_value": 1.17549435e-38, "epsilon": 1.1920929e-07, "neg_zero": -0.0}
+REAL_CLASSES = [("NaN", float("nan")), ("-inf", float("-inf")), ("the most negative finite real", -3.4028235e38), ("-1.5", -1.5), ("-0.0", -0.0),
+                ("0.0", 0.0), ("the least positive real", 1.17549435e-38), ("1.5", 1.5), ("the largest finite real", 3.4028235e38),
+                ("+inf", float("inf"))]
+
+
+def real_print_paths(fb, max_tests=5):
+    """Display of Value::Number(Number::Real(r)) with r opaque: every test of r against a constant of the real type (max_value,
+    infinity, ...) or a classification (is_nan, is_infinite ...) is explored both ways.  Returns [(conditions, text)] where a
+    condition is (op, lhs, rhs, outcome) with r written 'r' and constants by name."""
+    import itertools
+    m = Mk(fb)
+    paths, seen = [], set()
+    for schedule in itertools.product((True, False), repeat=max_tests):
+        r = Tok("r")
+        v = m.number("Real", r)
+        conds, k = [], [0]
+
+        def side(x):
+            x = absint.deref(x)
+            if x is r:
+                return "r"
+            if isinstance(x, Tok) and isinstance(x.tag, str) and x.tag.startswith("const:"):
+                return x.tag[6:]
+            if isinstance(x, (int, float)) and not isinstance(x, bool):
+                return float(x)
+            return None
+
+        def icpt(mc, c, a, tt, g):
+            end = c.rsplit("::", 1)[-1]
+            if end in REAL_CONSTS and not a:
+                return Tok("const:" + end)
+            if end in ("eq", "ne", "lt", "le", "gt", "ge") and len(a) == 2:
+                l, rr = side(a[0]), side(a[1])
+                if l is not None and rr is not None and "r" in (l, rr):
+                    i = k[0]
+                    k[0] += 1
+                    val = schedule[i] if i < len(schedule) else True
+                    conds.append((end, l, rr, val))
+                    return val
+            if end in ("is_nan", "is_infinite", "is_finite", "is_sign_negative", "is_sign_positive", "is_normal") and len(a) == 1 and absint.deref(a[0]) is r:
+                i = k[0]
+                k[0] += 1
+                val = schedule[i] if i < len(schedule) else True
+                conds.append((end, "r", None, val))
+                return val
+            return NOT
+        sink = Sink()
+        fmt = fb.find("<values::Value as std::fmt::Display>::fmt")
+        mc = Machine(fb, intercept=icpt, max_visits=12, budget=600)
+        try:
+            mc.run(fmt, [v, sink])
+        except (absint.Stuck, absint.Loop) as e:
+            paths.append({"stuck": str(e), "conds": list(conds)})
+            continue
+        t = sink.text()
+        sig = (tuple(conds), repr(t))
+        if sig in seen:
+            continue
+        seen.add(sig)
+        paths.append({"conds": list(conds), "text": t})
+    return paths
+
+
+def real_holds(cond, x):
+    import math
+    op, l, r, val = cond
+    lv = x if l == "r" else (REAL_CONSTS[l] if isinstance(l, str) else l)
+    if r is None:
+        got = {"is_nan": math.isnan(x), "is_infinite": math.isinf(x), "is_finite": not (math.isnan(x) or math.isinf(x)),
+               "is_sign_negative": math.copysign(1.0, x) < 0, "is_sign_positive": math.copysign(1.0, x) > 0,
+               "is_normal": not (math.isnan(x) or math.isinf(x)) and abs(x) >= 1.17549435e-38}[op]
+        return got == val
+    rv = x if r == "r" else (REAL_CONSTS[r] if isinstance(r, str) else r)
+    got = {"eq": lv == rv, "ne": lv != rv, "lt": lv < rv, "le": lv <= rv, "gt": lv > rv, "ge": lv >= rv}[op]
+    return got == val
